@@ -51,6 +51,24 @@ def nth(seq_term, i):
     return _AT[key](seq_term, i)
 
 
+_MEM = {}
+
+
+def mem(seq_term, x):
+    """x in seq as a named predicate, defined by one axiom per sequence sort: mem(s, v) <=> exists i. 0 <= i < len(s) and at(s, i) == v.
+    Membership-level reasoning (symmetry of links, set algebra) then needs no positions at all."""
+    so = seq_term.sort()
+    key = so.sexpr()
+    if key not in _MEM:
+        f = z3.Function('mem_%d' % len(_MEM), so, so.basis(), z3.BoolSort())
+        s, v, i = z3.Const('mems_%d' % len(_MEM), so), z3.Const('memv_%d' % len(_MEM), so.basis()), z3.Int('memi_%d' % len(_MEM))
+        _MEM[key] = f
+        AT_AXIOMS.append(z3.ForAll([s, v], f(s, v) == z3.Exists([i], z3.And(0 <= i, i < z3.Length(s), nth(s, i) == v)), patterns=[f(s, v)]))
+        # a position is a witness of membership
+        AT_AXIOMS.append(z3.ForAll([s, i], z3.Implies(z3.And(0 <= i, i < z3.Length(s)), f(s, nth(s, i))), patterns=[nth(s, i)]))
+    return _MEM[key](seq_term, x)
+
+
 def box(v):
     """typed value -> Val"""
     s = v.sort
@@ -199,6 +217,11 @@ def py_eq(a, b):
         return z3.BoolVal(False)
     if is_ref(sa) and is_ref(sb):
         return a.t == b.t
+    if isinstance(sa, SeqT) and isinstance(sb, SeqT) and (sa.elem is None or sb.elem is None):
+        if sa.elem is None and sb.elem is None:
+            return z3.BoolVal(True)
+        o = b if sa.elem is None else a
+        return z3.Length(o.t) == 0
     if sa == sb:
         if isinstance(sa, MapT):
             return z3.And(a.c['dom'] == b.c['dom'], a.c['val'] == b.c['val'])
